@@ -616,42 +616,6 @@ def rule_totals(rep, repo):
   qe = repo.module(QE)
   efn = qe.functions["energy_estimate"]
   unit = "%s::energy_estimate" % qe.relpath
-  stored = None
-  for n in ast.walk(efn):
-    if isinstance(n, ast.Dict):
-      for k, v in zip(n.keys, n.values):
-        if isinstance(k, ast.Constant) and k.value == "energy" and \
-            isinstance(v, ast.Dict):
-          stored = {}
-          for k2, v2 in zip(v.keys, v.values):
-            names = [x.id for x in ast.walk(v2) if isinstance(x, ast.Name)
-                     and x.id not in ("float", "format")]
-            stored[k2.value] = names
-  total_terms = None
-  for n in ast.walk(efn):
-    if isinstance(n, ast.AugAssign) and isinstance(n.target, ast.Name) and \
-        n.target.id == "total_energy" and isinstance(n.op, ast.Add):
-      total_terms = sorted(x.id for x in ast.walk(n.value)
-                           if isinstance(x, ast.Name))
-      only_add = all(isinstance(x.op, ast.Add) for x in ast.walk(n.value)
-                     if isinstance(x, ast.BinOp))
-  ok = stored is not None and total_terms is not None and only_add and \
-      all(len(v) == 1 for v in stored.values()) and \
-      sorted(v[0] for v in stored.values()) == total_terms
-  rep.check(ok, "R4", unit, "total!=sum-of-entries",
-            "total_energy accumulates %s while the per-layer entry stores %s"
-            % (total_terms, stored), loc=qe.loc(efn))
-  # result["total_cost"] = int(total_energy)
-  ok = False
-  for n in ast.walk(efn):
-    if isinstance(n, ast.Assign) and any(
-        isinstance(t, ast.Subscript) and isinstance(t.slice, ast.Constant)
-        and t.slice.value == "total_cost" for t in n.targets):
-      ok = "total_energy" in {x.id for x in ast.walk(n.value)
-                              if isinstance(x, ast.Name)}
-  rep.check(ok, "R4", unit, "total_cost-not-total_energy",
-            "result['total_cost'] is not computed from total_energy",
-            loc=qe.loc(efn))
   # extract_energy_sum / extract_energy_profile evaluated symbolically
   rq = repo.module(RQ)
   qt = rq.classes.get("QTools")
@@ -1063,11 +1027,40 @@ def rule_entries(rep, repo):
               "%s.parameters is %s" % (lname, show(gv, 200) if gv is not None
                                        else None), loc=loc)
   tc = r.get("total_cost")
-  if isinstance(tc, Tensor):
-    rep.check(g(tc) == total or g(tc) == mk("floor", (), [total]), "R7",
-              unit, "total!=sum-of-entries(interpreted)",
-              "total_cost is %s, the entries add up to %s" %
-              (show(g(tc), 200), show(total, 200)), loc=loc)
+  rep.check(isinstance(tc, Tensor) and (
+      g(tc) == total or g(tc) == mk("floor", (), [total])), "R4", unit,
+            "total!=sum-of-entries",
+            "total_cost is %s, the entries add up to %s" %
+            (show(g(tc), 200) if isinstance(tc, Tensor) else tc,
+             show(total, 200)), loc=loc)
+  # a second estimate in the same interpreter, for a model that has only
+  # two of these layers: its report lists those layers only and its total is
+  # the sum of ITS entries (nothing is carried over between estimates)
+  sub = [l_ for l_ in layers if l_.attrs.get("name") in ("dense", "act")]
+  if len(sub) == 2:
+    try:
+      r2 = pe.call(pe.lookup_global("energy_estimate", qe), [
+          Mock("model", {"layers": sub}),
+          {"output_layers": [sub[-1]], "input_layers": [sub[0]],
+           "layer_data_type_map": lm}, "sram", "dram", S("minsram"), True],
+                   {})
+      names2 = sorted(k for k, v in r2.items() if isinstance(v, dict))
+      t2 = NF.const(0)
+      for k in names2:
+        for v in r2[k]["energy"].values():
+          t2 = t2 + g(v)
+      tc2 = r2.get("total_cost")
+      rep.check(names2 == ["act", "dense"] and isinstance(tc2, Tensor) and (
+          g(tc2) == t2 or g(tc2) == mk("floor", (), [t2])), "R4", unit,
+                "second-estimate-carries-earlier-layers",
+                "a second energy_estimate in the same process, for a model "
+                "with the layers ['act', 'dense'], reports %s; total_cost "
+                "%s, its entries add up to %s" % (
+                    names2, show(g(tc2), 120) if isinstance(tc2, Tensor)
+                    else tc2, show(t2, 120)), loc=loc)
+    except PyRaise as e:
+      rep.fail("R4", unit, "second-estimate-raises",
+               "a second energy_estimate raises %s" % e, loc=loc)
 
 
 SETTINGS = "qkeras.qtools.settings"
